@@ -312,3 +312,15 @@ def deep_cases(n=220):
     out.append(deep('deep_zigzag', zig))
     out.append(deep('deep_chain_rb', list(range(n)), 'rb'))
     return out
+
+
+def nestwalk_variants(cases, every=4):
+    """Every `every`-th case with a traversal once more with a visitor that itself walks another tree (header nestwalk 1)."""
+    out, n = [], 0
+    for c in cases:
+        if any(h.split()[0] == 'nestwalk' for h in c.header) or not any(o.startswith('foreach') for o in c.ops):
+            continue
+        n += 1
+        if n % every == 0:
+            out.append(Case(c.name + 'w', c.header + ['nestwalk 1'], c.ops, c.origin))
+    return out
